@@ -210,3 +210,74 @@ Lemma estimateCCtxSize_ge rz i L : In i (level_range L) -> estimateCCtxSize_inte
 Proof. intros H. unfold estimateCCtxSize. apply (fold_max_in (estimateCCtxSize_internal rz)). exact H. Qed.
 Lemma estimateCStreamSize_ge rz i L : In i (level_range L) -> estimateCStreamSize_internal rz i <= estimateCStreamSize rz L.
 Proof. intros H. unfold estimateCStreamSize. apply (fold_max_in (estimateCStreamSize_internal rz)). exact H. Qed.
+
+(* ------------------------------------------------------------------ *)
+(* the sweep, and its lifting *)
+
+Lemma sweep_oneshot_0 : sweep_oneshot 0 = true.
+Proof. vm_compute. reflexivity. Qed.
+Lemma sweep_stream_0 : sweep_stream 0 = true.
+Proof. vm_compute. reflexivity. Qed.
+Lemma sweep_oneshot_128 : sweep_oneshot 128 = true.
+Proof. vm_compute. reflexivity. Qed.
+Lemma sweep_stream_128 : sweep_stream 128 = true.
+Proof. vm_compute. reflexivity. Qed.
+
+Lemma level_row_in l : (0 <= l)%Z -> In (level_row l) (tl rows) /\ (1 <= Z.of_N (level_row l))%Z /\
+  ((1 <= l)%Z -> (Z.of_N (level_row l) <= l)%Z) /\ (l = 0%Z -> level_row l = 3).
+Proof.
+  intros Hl. unfold level_row. change c_ZSTD_CLEVEL_DEFAULT with 3. change c_ZSTD_MAX_CLEVEL with 22.
+  destruct (Z.eqb_spec l 0) as [-> | Hn].
+  - split; [ | split; [ lia | split; [ lia | reflexivity ] ] ]. unfold rows. cbn. tauto.
+  - destruct (Z.ltb_spec l 0); [ lia | ]. destruct (Z.ltb_spec (Z.of_N 22) l).
+    + split; [ unfold rows; cbn; tauto | ]. split; [ lia | split; [ lia | lia ] ].
+    + split; [ | split; [ lia | split; [ lia | lia ] ] ].
+      unfold rows. change (tl (map N.of_nat (seq 0 23))) with (map N.of_nat (seq 1 22)).
+      apply in_map_iff. exists (Z.to_nat l). split; [ lia | apply in_seq; lia ].
+Qed.
+
+Definition level_covered (l L : Z) : Prop := (0 <= l <= L)%Z /\ (l = 0%Z -> (3 <= L)%Z).
+
+Section Lift.
+  Variable rz : N.
+  Hypothesis SO : sweep_oneshot rz = true.
+  Hypothesis SS : sweep_stream rz = true.
+
+  Lemma lift_common l L s : level_covered l L -> s <= UNKNOWN ->
+    In (level_row l) (tl rows) /\ In (cls_of s) all_classes /\ In (Z.of_N (level_row l)) (level_range L).
+  Proof.
+    intros [[H0 HL] H3] Hs. destruct (level_row_in l H0) as (R1 & R2 & R3 & R4).
+    split; [ exact R1 | ]. split; [ apply cls_in | ].
+    apply level_range_in. split; [ exact R2 | ].
+    destruct (Z.eq_dec l 0) as [E | E]; [ rewrite (R4 E); specialize (H3 E); lia | ]. specialize (R3 ltac:(lia)). lia.
+  Qed.
+
+  Lemma estimate_covers_levels_oneshot l L s : level_covered l L -> s <= UNKNOWN ->
+    need_simple rz l s <= estimateCCtxSize rz L /\ need_compress2 rz l s <= estimateCCtxSize rz L.
+  Proof.
+    intros HC Hs. destruct (lift_common l L s HC Hs) as (R & C & I). destruct HC as [[H0 _] _].
+    unfold sweep_oneshot in SO. rewrite forallb_forall in SO. specialize (SO _ R).
+    rewrite forallb_forall in SO. specialize (SO _ C). apply andb_true_iff in SO. destruct SO as [S1 S2].
+    apply N.leb_le in S1. apply N.leb_le in S2.
+    pose proof (estimateCCtxSize_ge rz _ L I) as G.
+    split.
+    - unfold need_simple. rewrite simple_params_eq by assumption. unfold simple_params_cls.
+      eapply N.le_trans; [ apply session_need_mono; [ exact Hs | reflexivity ] | ].
+      unfold need_simple_cls, simple_params_cls in S1. lia.
+    - unfold need_compress2. rewrite stream2_params_eq by assumption. unfold stream2_params_cls.
+      eapply N.le_trans; [ apply session_need_mono; [ exact Hs | reflexivity ] | ].
+      unfold need_compress2_cls, stream2_params_cls in S2. lia.
+  Qed.
+
+  Lemma estimate_covers_levels_stream l L s : level_covered l L -> s <= UNKNOWN ->
+    need_stream rz l s <= estimateCStreamSize rz L.
+  Proof.
+    intros HC Hs. destruct (lift_common l L s HC Hs) as (R & C & I). destruct HC as [[H0 _] _].
+    unfold sweep_stream in SS. rewrite forallb_forall in SS. specialize (SS _ R).
+    rewrite forallb_forall in SS. specialize (SS _ C). apply N.leb_le in SS.
+    pose proof (estimateCStreamSize_ge rz _ L I) as G.
+    unfold need_stream. rewrite stream2_params_eq by assumption. unfold stream2_params_cls.
+    eapply N.le_trans; [ apply session_need_mono; [ exact Hs | reflexivity ] | ].
+    unfold need_stream_cls, stream2_params_cls in SS. lia.
+  Qed.
+End Lift.
